@@ -225,4 +225,60 @@ theorem find_complete_strict (lookup : Bytes → DirSpec) (pat : Bytes) (st : Pa
       | nil => exact absurd hq h1
       | cons _ _ => rfl
 
+theorem rebuild_key (st : PadStyle) (d b fr pad e : Bytes) :
+    (rebuild st d b fr pad e).dir = d ∧ (rebuild st d b fr pad e).base = b ∧ (rebuild st d b fr pad e).ext = e := by
+  unfold rebuild
+  simp only
+  split
+  · simp [Seq.setPadding]
+  · unfold Seq.setFrameRange
+    split <;> simp [Seq.setPadding]
+
+/-- a single candidate is not dropped either: the non-strict lookup returns a sequence with the
+    pattern's directory, basename and extension -/
+theorem find_single (lookup : Bytes → DirSpec) (pat : Bytes) (st : PadStyle) (hidden : Bool)
+    (fs : Seq) (entries : List Entry) (tk : Bytes)
+    (hp : Seq.parse st pat = .ok fs) (hl : lookup (openDir fs.dir) = some entries)
+    (hnd : ∀ e ∈ entries, e.kind ≠ .dangling)
+    (htoks : candToks ⟨false, hidden, st⟩ fs
+        ((entries.filter fun e => e.kind = .file ∨ e.kind = .linkFile).map fun e => ⟨dirPrefix (openDir fs.dir), e.name⟩) = [tk]) :
+    ∃ s, findSequenceOnDisk lookup pat st false hidden = .ok (some s) ∧
+      s.dir = fs.dir ∧ s.base = fs.base ∧ s.ext = fs.ext ∧ s.style = st := by
+  obtain ⟨bs, hscan, hinv⟩ := scan_collects ⟨false, hidden, st⟩ fs
+    ((entries.filter fun e => e.kind = .file ∨ e.kind = .linkFile).map fun e => ⟨dirPrefix (openDir fs.dir), e.name⟩)
+    [] [] [] (Or.inl ⟨rfl, rfl⟩)
+  rw [List.nil_append, htoks] at hinv
+  rcases hinv with ⟨ha, _⟩ | ⟨_, b, hb, hd, hbase, hext, hfr, _, _⟩
+  · cases ha
+  · subst hb
+    obtain ⟨f, hf⟩ : ∃ f, b.frames = [f] := by
+      cases hq : b.frames with
+      | nil => rw [hq] at hfr; cases hfr
+      | cons f r =>
+        cases r with
+        | nil => exact ⟨f, rfl⟩
+        | cons _ _ => rw [hq] at hfr; simp at hfr
+    obtain ⟨ld, hbs⟩ := ListAux.bucketSeqs_single st b f hf
+    have hany : (entries.any fun e => e.kind = .dangling) = false := by
+      rw [List.any_eq_false]
+      intro e he
+      simpa using hnd e he
+    obtain ⟨k1, k2, k3⟩ := rebuild_key st b.dir b.base
+      (if (if ld then [] else b.padding).isEmpty then f.frame else itoa f.num)
+      (if ld then [] else b.padding) b.ext
+    refine ⟨(rebuild st b.dir b.base
+        (if (if ld then [] else b.padding).isEmpty then f.frame else itoa f.num)
+        (if ld then [] else b.padding) b.ext).setPaddingStyle st, ?_, ?_, ?_, ?_, ?_⟩
+    · unfold findSequenceOnDisk scanDir findInItems
+      simp only [hp, hl, hany, Bool.false_eq_true, if_false]
+      rw [hscan]
+      simp only [bind, Except.bind, pure, Except.pure, List.map_cons, List.map_nil, List.flatten_cons,
+        List.flatten_nil, List.append_nil, hbs]
+      simp [hbase, hext]
+      exact ⟨(rebuild_key st b.dir fs.base _ _ fs.ext).2.1, (rebuild_key st b.dir fs.base _ _ fs.ext).2.2⟩
+    · simpa [Seq.setPaddingStyle, Seq.setPadding, hd] using k1
+    · simpa [Seq.setPaddingStyle, Seq.setPadding, hbase] using k2
+    · simpa [Seq.setPaddingStyle, Seq.setPadding, hext] using k3
+    · simp [Seq.setPaddingStyle, Seq.setPadding]
+
 end Gfs.Proofs.FindComplete
